@@ -835,6 +835,95 @@ def build_loop(tree):
         raise Unsupported('plane loop is no longer `enumerate(<sort index>, <int>)`')
     texts = [f'/-- `Segmentation.__init__`: first value of `plane_dim_ind` (`{ast.unparse(it)}`) -/\n'
              f'def frameEnumStart : Int := ({it.args[1].value} : Int)']
+    # ---- index bookkeeping of the loop body as an executable block (audit 2, C03-2): which index selects the pixel plane, which
+    # the plane position, which value becomes the dimension index value -- in source order, so that a re-binding of `plane_index`
+    # or `plane_dim_ind` between the uses changes the generated definition.  Every statement of the loop body is accounted for.
+    def head(st):
+        if isinstance(st, ast.Assign):
+            return 'assign ' + ast.unparse(st.targets[0])
+        if isinstance(st, ast.If):
+            return 'if ' + ast.unparse(st.test)[:70]
+        if isinstance(st, ast.For):
+            return 'for ' + ast.unparse(st.target)
+        if isinstance(st, ast.Expr):
+            return 'expr ' + ast.unparse(st.value)[:40]
+        return type(st).__name__.lower()
+    tracked = ('plane_index', 'plane_dim_ind')
+
+    def binds(st):
+        return any(isinstance(n, ast.Name) and n.id in tracked and isinstance(n.ctx, (ast.Store, ast.Del)) for n in ast.walk(st))
+
+    def expect(stmts, want, what):
+        got = [head(st) for st in stmts]
+        if got != want:
+            raise Unsupported(f'frame loop: statements of {what} changed (unconsumed: {[h for h in got if h not in want][:3] or got})')
+    expect(il.body, ['if tile_pixel_array', 'if segment_number is None', 'if segment_number is not None', 'if segment_number is None',
+                     'expr logger.debug(msg)', 'if dimension_organization_type != DimensionOrganizationTypeValues.TILED_F',
+                     'if is_encaps'], 'the plane loop')
+    tiled_if, seg_if, _skip_if, msg_if, _log, org_if, enc_if = il.body
+    for st in (seg_if, _skip_if, msg_if, _log, enc_if):
+        if binds(st):
+            raise Unsupported(f'frame loop: {head(st)} re-binds the plane index or the dimension index')
+    expect(tiled_if.orelse, ['assign plane_array'], 'the stacked branch of `if tile_pixel_array:`')
+    expect(tiled_if.body, ['if dimension_organization_type == DimensionOrganizationTypeValues.TILED_F', 'assign plane_array'],
+           'the tiled branch of `if tile_pixel_array:`')
+    if binds(tiled_if.body[0]) or org_if.orelse:
+        raise Unsupported('frame loop: tiled branch re-binds the plane index / TILED_FULL test has an else')
+    pa0 = tiled_if.orelse[0].value
+    if not (isinstance(pa0, ast.Subscript) and ast.unparse(pa0.value) == 'pixel_array'):
+        raise Unsupported('frame loop: plane_array is no longer pixel_array[...]')
+    expect(org_if.body, ['if self._coordinate_system is not None', 'assign pffg_item', 'expr pffg_sequence.append(pffg_item)'],
+           'the per-frame item block')
+    cs_if = org_if.body[0]
+    expect(cs_if.body, ['assign plane_pos_val', 'if self._coordinate_system == CoordinateSystemNames.SLIDE'], 'the coordinate-system block')
+    expect(cs_if.orelse, ['if segmentation_type == SegmentationTypeValues.LABELMAP'], 'the no-coordinate-system block')
+    if binds(cs_if.orelse[0]) or binds(cs_if.body[0]):
+        raise Unsupported('frame loop: index values block re-binds the plane index')
+    slide_if = cs_if.body[1]
+    expect(slide_if.orelse, ['assign dimension_index_values'], 'the patient branch of the index values')
+    dv = slide_if.orelse[0].value
+    if not (isinstance(dv, ast.List) and len(dv.elts) == 1):
+        raise Unsupported('dimension_index_values of the patient case is no longer a one-element list')
+    if binds(slide_if) :
+        raise Unsupported('frame loop: slide index values re-bind the plane index')
+    pf0 = org_if.body[1].value
+    if not (isinstance(pf0, ast.Call) and ast.unparse(pf0.func) == 'self._get_pffg_item' and not pf0.args):
+        raise Unsupported('frame loop: pffg_item is no longer self._get_pffg_item(keywords)')
+    pk = {k.arg: k.value for k in pf0.keywords}
+    pp0 = pk.get('plane_position')
+    if not (isinstance(pp0, ast.Subscript) and ast.unparse(pp0.value) == 'plane_positions') or ast.unparse(pk.get('dimension_index_values')) != 'dimension_index_values':
+        raise Unsupported('frame loop: plane_position / dimension_index_values arguments of _get_pffg_item changed')
+    blk_src = ('pix_index = ' + ast.unparse(pa0.slice) + '\n' + 'div_value = ' + ast.unparse(dv.elts[0]) + '\n'
+               + 'pos_index = ' + ast.unparse(pp0.slice) + '\n' + 'return (pix_index, pos_index, div_value)\n')
+    texts.append(translate_block(ast.parse(blk_src).body, 'frameBookkeeping', [('plane_dim_ind', 'int'), ('plane_index', 'int')], {},
+                                 doc='`Segmentation.__init__`, plane loop, stack of planes in the patient coordinate system, in source order: '
+                                     '(index into `pixel_array` whose plane the frame carries, index into `plane_positions` whose position it '
+                                     'records, its dimension index value).  No statement of the loop body re-binds `plane_index` / '
+                                     '`plane_dim_ind` (checked; a re-binding makes the translation refuse)'))
+    # every mention of the sort index / the loop variables in the constructor is accounted for
+    counts = {nm: sum(1 for n in ast.walk(fn) if isinstance(n, ast.Name) and n.id == nm) for nm in ('plane_sort_index',) + tracked}
+    if counts != {'plane_sort_index': 6, 'plane_index': 13, 'plane_dim_ind': 2}:
+        raise Unsupported(f'frame loop: mentions of plane_sort_index / plane_index / plane_dim_ind changed: {counts}')
+    psi_assigns = sorted(ast.unparse(st.value)[:60] for st in ast.walk(fn) if isinstance(st, ast.Assign)
+                         and any(isinstance(n, ast.Name) and n.id == 'plane_sort_index' for t in st.targets for n in ast.walk(t)))
+    rows.append(('sort.assignments', ' | '.join(psi_assigns)))
+    # tiled frames: where the tile is cut from and the slide index values
+    tf_if = tiled_if.body[0]
+    rows.append(('tile.full.row_offset', ' | '.join(ast.unparse(st.value) for st in tf_if.body if isinstance(st, ast.Assign) and ast.unparse(st.targets[0]) == 'row_offset')))
+    rows.append(('tile.full.column_offset', ' | '.join(ast.unparse(st.value) for st in tf_if.body if isinstance(st, ast.Assign) and ast.unparse(st.targets[0]) == 'column_offset')))
+    rows.append(('tile.sparse', ' ; '.join(ast.unparse(st) for st in tf_if.orelse)))
+    tcall = tiled_if.body[1].value
+    if not (isinstance(tcall, ast.Call) and ast.unparse(tcall.func) == 'get_tile_array'):
+        raise Unsupported('tiled frames: plane_array is no longer get_tile_array(...)')
+    rows.append(('tile.call', ', '.join([ast.unparse(a) for a in tcall.args] + [f'{k.arg}={ast.unparse(k.value)}' for k in tcall.keywords])))
+    rows.append(('slide.plane_pos_val', ast.unparse(cs_if.body[0].value)))
+    if len(slide_if.body) != 1 or not isinstance(slide_if.body[0], ast.Try) or len(slide_if.body[0].body) != 1:
+        raise Unsupported('slide index values are no longer one guarded assignment')
+    rows.append(('slide.index_values', ast.unparse(slide_if.body[0].body[0])))
+    rows.append(('slide.column_swap', ' | '.join(ast.unparse(st.value) for st in ast.walk(fn) if isinstance(st, ast.Assign)
+                                                 and ast.unparse(st.targets[0]) == 'plane_position_values' and '[1, 0, 2, 3, 4]' in ast.unparse(st.value))))
+    rows.append(('slide.unique_dimension_values', ' | '.join(ast.unparse(st.value)[:200].replace('\n', ' ') for st in ast.walk(fn) if isinstance(st, ast.Assign)
+                                                            and ast.unparse(st.targets[0]) == 'unique_dimension_values')))
     # which plane of the input array a (non-tiled) frame carries
     pa = [s for s in ast.walk(il) if isinstance(s, ast.Assign) and ast.unparse(s.targets[0]) == 'plane_array'
           and 'get_tile_array' not in ast.unparse(s.value)]
@@ -947,10 +1036,30 @@ def build_index_values(tree):
     positions are refused as not unique."""
     fn = find_func(tree, 'DimensionIndexSequence.get_index_values')
     rows = []
+
+    def head(st):
+        if isinstance(st, ast.Assign):
+            return 'assign ' + ast.unparse(st.targets[0])
+        if isinstance(st, ast.If):
+            return 'if ' + ast.unparse(st.test)[:60]
+        return type(st).__name__.lower()
+    got = [head(st) for st in strip_doc(fn.body)]
+    want = ['if self._coordinate_system is None', 'assign ref_seg_tag', 'assign indexers', 'assign plane_position_values',
+            'if image_orientation is not None', 'if len(plane_sort_indices) != len(plane_positions)', 'return']
+    if got != want:
+        raise Unsupported(f'get_index_values: statements changed (unconsumed: {[h for h in got if h not in want][:3] or got})')
+    n_mentions = sum(1 for n in ast.walk(fn) if isinstance(n, ast.Name) and n.id == 'plane_sort_indices')
+    if n_mentions != 4:
+        raise Unsupported(f'get_index_values: plane_sort_indices is mentioned {n_mentions} times (4 expected: two np.unique results, the '
+                          'length test, the return)')
     br = [n for n in fn.body if isinstance(n, ast.If) and ast.unparse(n.test) == 'image_orientation is not None']
     if len(br) != 1:
         raise Unsupported('`if image_orientation is not None:` not found')
     b = br[0]
+    if [head(st) for st in b.body] != ['if not hasattr(plane_positions[0][0], \'ImagePositionPatient\')', 'assign normal_vector',
+                                      'assign origin_distances', 'assign (_, plane_sort_indices)'] \
+            or [head(st) for st in b.orelse] != ['assign (_, plane_sort_indices)']:
+        raise Unsupported(f'get_index_values: ordering branches changed: {[head(st) for st in b.body]} / {[head(st) for st in b.orelse]}')
     env = _block_env(b.body)
     for name in ('normal_vector', 'origin_distances'):
         if name not in env:
